@@ -662,7 +662,7 @@ func scanLoopVerdict(w *World, eff *Effects, l scanLoop) (instance bool, ok bool
 		return true, false, "more than 20000 paths through the loop body", ""
 	}
 	deps := collectBoundDeps(w, eff, l.Head, l.Bound)
-	var stuck []string
+	var stuck, skipped []string
 	nAdv, nShrink := 0, 0
 	anyKept := false
 	for _, path := range paths {
@@ -679,6 +679,15 @@ func scanLoopVerdict(w *World, eff *Effects, l scanLoop) (instance bool, ok bool
 		}
 		if advanced {
 			nAdv++
+			// a trip that moves another, not yet examined element of the sequence into the cursor position must
+			// look at it: advancing the cursor as well skips it
+			for _, b := range path {
+				for _, ins := range b.Instrs {
+					if from, ok := movedIntoCursor(w, ins, l.CursorVal); ok {
+						skipped = append(skipped, fmt.Sprintf("%s puts the element at %s into the cursor position and the cursor then advances", w.InstrPos(ins), from))
+					}
+				}
+			}
 			continue
 		}
 		anyKept = true
@@ -741,6 +750,11 @@ func scanLoopVerdict(w *World, eff *Effects, l scanLoop) (instance bool, ok bool
 	}
 	if !anyKept {
 		return false, true, "", ""
+	}
+	if len(skipped) > 0 {
+		skipped = dedupe(skipped)
+		sort.Strings(skipped)
+		return true, false, "", "an element is skipped: " + strings.Join(skipped, "; ")
 	}
 	if len(stuck) > 0 {
 		sort.Strings(stuck)
@@ -831,4 +845,44 @@ func fixtureR2_2(fw *World) []string {
 		fails = append(fails, "R2.2 fixture CountedLoop: a counted loop must not be an instance")
 	}
 	return fails
+}
+
+// movedIntoCursor recognises `seq[cursor] = seq[other]` (directly or through a setter/getter pair of accessor
+// methods): an element from another position replaces the one under the cursor.
+func movedIntoCursor(w *World, ins ssa.Instruction, cursor ssa.Value) (string, bool) {
+	elemFrom := func(v ssa.Value) (idx ssa.Value, ok bool) {
+		switch x := v.(type) {
+		case *ssa.UnOp:
+			if x.Op == token.MUL {
+				if ia, ok := x.X.(*ssa.IndexAddr); ok {
+					return ia.Index, true
+				}
+			}
+		case *ssa.Call:
+			// getter: a module method returning one element, index as last argument
+			if c := x.Call.StaticCallee(); c != nil && w.InModule(w.unwrap(c)) && len(x.Call.Args) == 2 && typeShort(x.Call.Args[1].Type()) == "int" {
+				return x.Call.Args[1], true
+			}
+		}
+		return nil, false
+	}
+	switch y := ins.(type) {
+	case *ssa.Store:
+		ia, ok := y.Addr.(*ssa.IndexAddr)
+		if !ok || ia.Index != cursor {
+			return "", false
+		}
+		if idx, ok := elemFrom(y.Val); ok && idx != cursor {
+			return "index " + idx.Name(), true
+		}
+	case *ssa.Call:
+		c := y.Call.StaticCallee()
+		if c == nil || !w.InModule(w.unwrap(c)) || len(y.Call.Args) != 3 || y.Call.Args[1] != cursor {
+			return "", false
+		}
+		if idx, ok := elemFrom(y.Call.Args[2]); ok && idx != cursor {
+			return "index " + idx.Name(), true
+		}
+	}
+	return "", false
 }
